@@ -1080,7 +1080,7 @@ def summarized_call(f, a, k):
 ENTERED = set()          # (module, qualname) of library callables actually entered through rewritten call sites
 
 
-def call(f, *a, **k):
+def call(f, /, *a, **k):
     STATS["calls"] += 1
     try:
         mod = f.__module__
